@@ -2,8 +2,8 @@ package symmetry
 
 import (
 	"fmt"
-	"os"
 	"golang.org/x/tools/go/ssa"
+	"os"
 
 	"verif/tools/internal/tables"
 )
